@@ -450,3 +450,29 @@ func vh_C13_walk(a []int) {
 	}
 	vReach("C13.end")
 }
+
+// vh_C16_calls: C16 — the engine monitors every write to package-level state
+// of the repository while independent API calls run (recording over a model
+// tree, signing, verifying, reducing, rule evaluation, parameter
+// substitution).  No assertion here: a feasible write outside package
+// initialisation is the candidate; the native confirmation runs the same kind
+// of calls from several goroutines under the race detector.
+func vh_C16_calls(a []int) {
+	vhTree = []vhEntry{{path: "ROOT/a", kind: vChoice("kind", 4), target: "T1"}}
+	_, e1 := RecordArtifacts([]string{"ROOT"}, []string{"sha256"}, nil, nil, false, true)
+	md := vhNewWrapper(a[0] == 1, Link{Type: "link", Name: "N0"})
+	e2 := md.Sign(vhEdKey(0, true))
+	e3 := md.VerifySignature(vhEdKey(0, false))
+	c := vhBuildChain(1, 1)
+	red, e4 := ReduceStepsMetadata(c.layout, c.md)
+	var e5 error
+	if e4 == nil {
+		e5 = VerifyArtifacts(c.layout.stepsAsInterfaceSlice(), red)
+	}
+	_, e6 := SubstituteParameters(c.layout, map[string]string{"P": "v"})
+	_, e7 := UnpackRule([]string{"ALLOW", "*"})
+	vObserve("calls", e1 == nil, e2 == nil, e3 == nil, e4 == nil, e5 == nil, e6 == nil, e7 == nil)
+	vReach("C16.end")
+}
+
+func init() { vhRegister("vh_C16_calls", vh_C16_calls) }
